@@ -2,7 +2,7 @@
     A killed build is a build whose configuration has [c_crashed = true] together with ANY sets [c_ran] (function bodies
     that ran) and [c_recorded] (records renamed into place): the model cuts every target that is not in them, so the
     theorems below quantify over every crash point of every schedule, not over a sequential prefix. *)
-From Dawn Require Import Build.Model Build.Proofs Build.Proofs_Fresh Build.Proofs_Stale.
+From Dawn Require Import Build.Model Build.Proofs Build.Proofs_Fresh Build.Proofs_Stale Build.Proofs_Skip.
 
 (** Whatever happened before -- including failed and killed builds at arbitrary points -- the persisted records never lie:
     a success record is exactly the snapshot of an execution that was recorded. *)
@@ -25,6 +25,15 @@ Theorem recovery_is_never_stale :
     forall x v, lookup x (o_vis o) = Some v -> current (o_w o) x.
 Proof. exact Proofs_Stale.never_stale. Qed.
 Print Assumptions recovery_is_never_stale.
+
+(** Whatever a killed or failed build left in the records (the theorem quantifies over ANY world), a later build reports a
+    target up to date only if that target's own record carries exactly the stamp of its present environment and no re-run
+    mark. *)
+Theorem up_to_date_only_with_current_stamp :
+  forall c w l0 l, c_crashed c = false ->
+    In (EUpToDate l) (o_events (build c w l0)) -> accepted (w_proj w) w l.
+Proof. exact Proofs_Skip.up_to_date_only_with_current_stamp. Qed.
+Print Assumptions up_to_date_only_with_current_stamp.
 
 (** A failed body leaves a record that is marked for re-run and carries no stamp: the next build executes it. *)
 Theorem failed_body_reruns :
